@@ -20,6 +20,7 @@ import (
 	"net"
 	"net/http"
 	"net/url"
+	"os"
 	"runtime"
 	"strconv"
 	"strings"
@@ -71,6 +72,22 @@ func handler(w http.ResponseWriter, req *http.Request) {
 	w.Header().Set("X-Id", fmt.Sprintf("%d-%d", c, i))
 	w.Header().Set("X-Req-Body", fmt.Sprint(len(rb)))
 	switch q.Get("m") {
+	case "sc": // http.ServeContent over an in-memory reader: io.CopyN -> Response.ReadFrom with an io.LimitedReader
+		w.Header().Set("Content-Type", "application/octet-stream")
+		http.ServeContent(w, req, "", time.Time{}, bytes.NewReader(append(append([]byte{}, body...), "BYTES-BEHIND-THE-SERVED-CONTENT"...)[:len(body)]))
+	case "sf": // the same over a file that is LONGER than what is served: the Sendfile branch where the connection allows it
+		w.Header().Set("Content-Type", "application/octet-stream")
+		if f, err := os.CreateTemp("", "httpe2e"); err == nil {
+			f.Write(body)
+			f.Write([]byte("BYTES-BEHIND-THE-SERVED-RANGE"))
+			f.Seek(0, 0)
+			w.Header().Set("Content-Length", fmt.Sprint(n))
+			if n > 0 {
+				io.CopyN(w, f, int64(n))
+			}
+			f.Close()
+			os.Remove(f.Name())
+		}
 	case "cl":
 		w.Header().Set("Content-Length", fmt.Sprint(n))
 		w.Write(body)
@@ -120,7 +137,7 @@ func genConn(r *rand.Rand) []reqSpec {
 	depth := 1 + r.Intn(5)
 	var rs []reqSpec
 	for i := 0; i < depth; i++ {
-		s := reqSpec{I: i, N: sizes[r.Intn(len(sizes))], M: []string{"cl", "multi", "one"}[r.Intn(3)], Minor: 1}
+		s := reqSpec{I: i, N: sizes[r.Intn(len(sizes))], M: []string{"cl", "multi", "one", "cl", "multi", "one", "sc", "sf"}[r.Intn(8)], Minor: 1}
 		if r.Intn(3) == 0 {
 			s.Post = []int{0, 5, 1000, 70000}[r.Intn(4)]
 		}
